@@ -81,6 +81,31 @@ theorem ledger_reported {S : SimIface σ α ω ι} {s1 : σ} {reps : List Aid} {
   rw [getD_map_range _ _ _ _ han, getD_map_range _ _ _ _ han, hR.pending a]
   by_cases h : a ∈ reps <;> simp [h]
 
+/-- the agents not in `done_agents` are exactly the participating agents not yet reported done -/
+theorem live_iff_participating {S : SimIface σ α ω ι} {k : MKind} {m : MState σ} {g : GSt}
+    (hI : Inv S k m g) (a : Aid) :
+    a ∈ S.agents.filter (fun a => decide (a ∉ m.doneSet)) ↔
+      (a ∈ participating k S.n S.learning ∧ a ∉ g.R) := by
+  simp only [List.mem_filter, decide_eq_true_eq, mem_agents, hI.ds a, not_or]
+  cases k with
+  | dynamic => simp [participating]
+  | allStep =>
+    simp only [participating, List.mem_filter, List.mem_range, mem_nonLearners, ne_eq, reduceCtorEq,
+      not_false_eq_true, true_and, not_and]
+    constructor
+    · rintro ⟨h1, h2, h3⟩
+      exact ⟨⟨h1, by cases hl : S.learning a <;> simp_all⟩, h2⟩
+    · rintro ⟨⟨h1, h2⟩, h3⟩
+      exact ⟨h1, h3, fun _ => by simp [h2]⟩
+  | turnBased =>
+    simp only [participating, List.mem_filter, List.mem_range, mem_nonLearners, ne_eq, reduceCtorEq,
+      not_false_eq_true, true_and, not_and]
+    constructor
+    · rintro ⟨h1, h2, h3⟩
+      exact ⟨⟨h1, by cases hl : S.learning a <;> simp_all⟩, h2⟩
+    · rintro ⟨⟨h1, h2⟩, h3⟩
+      exact ⟨h1, h3, fun _ => by simp [h2]⟩
+
 /-- the C01 clauses for an accepted step, from the abstract description of what was reported -/
 theorem c01Step_of_reported [DecidableEq α] {S : SimIface σ α ω ι} {k : MKind} {m : MState σ} {g : GSt}
     (hI : Inv S k m g) (shuffled : Bool) (acts args : List (Aid × α)) (s1 s' : σ) (reps : List Aid)
@@ -89,7 +114,8 @@ theorem c01Step_of_reported [DecidableEq α] {S : SimIface σ α ω ι} {k : MKi
     (hargs : if shuffled then permOf args acts = true else args = acts)
     (hR : Reported S s1 reps o s')
     (hreps : ∀ a ∈ reps, a ∉ m.doneSet)
-    (hlt : ∀ a ∈ reps, a < S.n)
+    (hpart : ∀ a ∈ reps, a ∈ participating k S.n S.learning)
+    (hfinal : o.allDone = true → ∀ a ∈ participating k S.n S.learning, a ∉ g.R → a ∈ reps)
     (had : o.allDone = (S.allDone s1 ||
       (participating k S.n S.learning).all (fun a => decide (a ∈ g.R ++ newlyDone o.dones)))) :
     c01Step k S.n S.learning shuffled g acts
@@ -102,14 +128,23 @@ theorem c01Step_of_reported [DecidableEq α] {S : SimIface σ α ω ι} {k : MKi
     have := hacc p hp
     simp only [decide_eq_true_eq] at this ⊢
     exact fun h => this ((hI.ds p.1).mpr (Or.inl h))
-  refine ⟨⟨⟨⟨⟨⟨⟨⟨⟨hblock, ?_⟩, ?_⟩, ?_⟩, ?_⟩, ?_⟩, ?_⟩, ?_⟩, ?_⟩, ?_⟩
+  refine ⟨⟨⟨⟨⟨⟨⟨⟨⟨⟨hblock, ?_⟩, ?_⟩, ?_⟩, ?_⟩, ?_⟩, ?_⟩, ?_⟩, ?_⟩, ?_⟩, ?_⟩
   · rw [hR.rewards, hR.obs, keys_map_pair]; simp
   · rw [hR.dones, hR.obs, keys_map_pair]; simp
   · rw [hR.infos, hR.obs]; simp
   · rw [hR.obs]; simpa using hR.nodup
   · rw [hR.obs, List.all_eq_true]
     intro a ha
-    simpa using hlt a ha
+    simpa using hpart a ha
+  · rw [hR.obs]
+    cases hAD : o.allDone with
+    | false => simp
+    | true =>
+      simp only [Bool.not_true, Bool.false_or, List.all_eq_true, Bool.or_eq_true, decide_eq_true_eq]
+      intro a ha
+      by_cases haR : a ∈ g.R
+      · exact Or.inl haR
+      · exact Or.inr (hfinal hAD a ha haR)
   · rw [hR.obs, List.all_eq_true]
     intro a ha
     simp only [decide_eq_true_eq]
@@ -273,8 +308,9 @@ theorem allStep_step_sound [DecidableEq α] {S : SimIface σ α ω ι} (hW : WF 
   unfold OpSound
   rw [hE]
   refine ⟨?_, ?_, rfl, ?_⟩
-  · have hlt : ∀ a ∈ live, a < S.n := fun a ha => (mem_agents S a).mp (List.mem_filter.mp ha).1
-    exact c01Step_of_reported hI m.shuffle acts sh.1 s1 s3 live out hacc hargs hR hreps hlt had
+  · have hlp := live_iff_participating hI
+    exact c01Step_of_reported hI m.shuffle acts sh.1 s1 s3 live out hacc hargs hR hreps
+      (fun a ha => ((hlp a).mp ha).1) (fun _ a ha haR => (hlp a).mpr ⟨ha, haR⟩) had
   · -- C07: every learning agent not yet reported done is reported; somebody can act
     simp only [c07Entry, Bool.or_eq_true, Bool.and_eq_true]
     by_cases hAD : out.allDone = true
@@ -386,10 +422,11 @@ theorem flush_sound [DecidableEq α] {S : SimIface σ α ω ι} (hS : Lawful S) 
   unfold OpSound
   rw [hE]
   refine ⟨?_, by simp [c07Entry, mkOut], rfl, ?_⟩
-  · refine c01Step_of_reported hI m.shuffle acts acts _ _ _ _ hacc ?_ hR ?_ ?_ ?_
+  · refine c01Step_of_reported hI m.shuffle acts acts _ _ _ _ hacc ?_ hR ?_ ?_ ?_ ?_
     · cases m.shuffle <;> simp [permOf_refl]
     · intro a ha; simpa using (List.mem_filter.mp ha).2
-    · intro a ha; exact (mem_agents S a).mp (List.mem_filter.mp ha).1
+    · intro a ha; exact ((live_iff_participating hI a).mp ha).1
+    · intro _ a ha haR; exact (live_iff_participating hI a).mpr ⟨ha, haR⟩
     · simp [mkOut, hfin]
   · intro _ hov
     simp [gNext, mkOut] at hov
@@ -496,16 +533,23 @@ theorem turn_step_sound [DecidableEq α] {S : SimIface σ α ω ι} (hW : WF S .
       · exact Or.inl h
       · exact Or.inr ⟨(List.mem_filter.mp h1).1, h2⟩
   have hnewly : newlyDone out.dones = reps.filter (fun a => S.done s1 a) := newlyDone_reported hR
-  have hrepslt : ∀ a ∈ reps, a < S.n := fun a ha =>
-    ((mem_learners S a).mp (hpre_learn a (List.mem_filter.mp ha).1)).1
+  have hrepspart : ∀ a ∈ reps, a ∈ participating .turnBased S.n S.learning := fun a ha => by
+    have := hpre_learn a (List.mem_filter.mp ha).1
+    simpa [participating, mem_learners] using this
   unfold OpSound
   rw [hE]
   cases hAD : res.allDone with
   | true =>
     obtain ⟨_, hallin⟩ := hT hAD
     refine ⟨?_, by simp [c07Entry, out, mkOut, hAD], rfl, ?_⟩
-    · refine c01Step_of_reported hI m.shuffle acts acts s1 res.sim reps out hacc ?_ hR hreps hrepslt ?_
+    · refine c01Step_of_reported hI m.shuffle acts acts s1 res.sim reps out hacc ?_ hR hreps hrepspart ?_ ?_
       · cases m.shuffle <;> simp [permOf_refl]
+      · intro _ a ha haR
+        have hal : a ∈ S.learners := by simpa [participating, mem_learners] using ha
+        have han := ((mem_learners S a).mp hal).1
+        rcases (hds' a).mp (hallin a ((mem_agents S a).mpr han)) with h1 | h1
+        · exact absurd ((hlearnR a hal).mp h1) haR
+        · exact h1.1
       · show res.allDone = _
         rw [hAD, hfin']
         symm
@@ -542,8 +586,9 @@ theorem turn_step_sound [DecidableEq α] {S : SimIface σ α ω ι} (hW : WF S .
       · exact absurd h1 (by simpa using hb'.2)
       · rw [h1]
     refine ⟨?_, ?_, rfl, ?_⟩
-    · refine c01Step_of_reported hI m.shuffle acts acts s1 res.sim reps out hacc ?_ hR hreps hrepslt ?_
+    · refine c01Step_of_reported hI m.shuffle acts acts s1 res.sim reps out hacc ?_ hR hreps hrepspart ?_ ?_
       · cases m.shuffle <;> simp [permOf_refl]
+      · intro hT; simp [out, mkOut, hAD] at hT
       · show res.allDone = _
         rw [hAD, hfin']
         symm
@@ -691,12 +736,18 @@ theorem dyn_step_sound [DecidableEq α] {S : SimIface σ α ω ι} (hW : WF S .d
   unfold OpSound
   rw [hE]
   refine ⟨?_, ?_, rfl, ?_⟩
-  · have hrepslt : ∀ a ∈ reps, a < S.n := by
+  · have hrepspart : ∀ a ∈ reps, a ∈ participating .dynamic S.n S.learning := by
       intro a ha
       have : a ∈ S.next s1 := by rw [hnom]; exact List.mem_append_left _ (List.mem_filter.mp ha).1
-      exact (hnext s1).2 a this
-    refine c01Step_of_reported hI m.shuffle acts acts s1 res.sim reps out hacc ?_ hR hreps hrepslt had
-    cases m.shuffle <;> simp [permOf_refl]
+      simpa [participating] using (hnext s1).2 a this
+    refine c01Step_of_reported hI m.shuffle acts acts s1 res.sim reps out hacc ?_ hR hreps hrepspart ?_ had
+    · cases m.shuffle <;> simp [permOf_refl]
+    · intro hTo a ha haR
+      have hT' : res.allDone = true := hTo
+      have han : a < S.n := by simpa [participating] using ha
+      rcases (hds' a).mp (hT hT' a ((mem_agents S a).mpr han)) with h1 | h1
+      · exact absurd ((hdsR a).mp h1) haR
+      · exact h1.1
   · simp only [c07Entry, Bool.or_eq_true, Bool.and_eq_true]
     cases hAD : res.allDone with
     | true => exact Or.inl (by simp [out, mkOut, hAD])
@@ -967,7 +1018,8 @@ structure C01StepOK (k : MKind) (n : Nat) (learning : Aid → Bool) (sh : Bool) 
   keysD : keys o.dones = keys o.obs
   keysI : keys o.infos = keys o.obs
   nodup : (keys o.obs).Nodup
-  lt : ∀ a ∈ keys o.obs, a < n
+  part : ∀ a ∈ keys o.obs, a ∈ participating k n learning
+  final : o.allDone = true → ∀ a ∈ participating k n learning, a ∈ g.R ∨ a ∈ keys o.obs
   notR : ∀ a ∈ keys o.obs, a ∉ g.R
   args : (match e.simArgs with
           | none => false
@@ -980,9 +1032,20 @@ theorem c01Step_unpack (h : c01Step k n learning sh g acts e = true) (ho : e.res
     C01StepOK k n learning sh g acts e o := by
   simp only [c01Step, ho, Bool.and_eq_true, beq_iff_eq, decide_eq_true_eq, List.all_eq_true,
     Bool.not_eq_true'] at h
-  obtain ⟨⟨⟨⟨⟨⟨⟨⟨⟨h1, h2⟩, h3⟩, h4⟩, h5⟩, h6⟩, h7⟩, h8⟩, h9⟩, h10⟩ := h
-  exact ⟨h1, h2, h3, h4, h5, h6, h7, h8, h9, h10⟩
+  obtain ⟨⟨⟨⟨⟨⟨⟨⟨⟨⟨h1, h2⟩, h3⟩, h4⟩, h5⟩, h6⟩, hf⟩, h7⟩, h8⟩, h9⟩, h10⟩ := h
+  refine ⟨h1, h2, h3, h4, h5, h6, ?_, h7, h8, h9, h10⟩
+  intro hAD a ha
+  rw [hAD] at hf
+  simp only [Bool.not_true, Bool.false_or, List.all_eq_true, Bool.or_eq_true, decide_eq_true_eq] at hf
+  exact hf a ha
 
+
+theorem participating_lt {k : MKind} {n : Nat} {learning : Aid → Bool} {a : Aid}
+    (h : a ∈ participating k n learning) : a < n := by
+  cases k <;> simp [participating] at h <;> first | exact h | exact h.1
+
+theorem C01StepOK.lt (u : C01StepOK k n learning sh g acts e o) : ∀ a ∈ keys o.obs, a < n :=
+  fun a ha => participating_lt (u.part a ha)
 
 /-- an error outcome of a step is only possible for a blocked action -/
 theorem c01Step_err_blocked {er : Err} (h : c01Step k n learning sh g acts e = true)
